@@ -120,7 +120,7 @@ def main():
     ]
     chk.assumptions = [
         "C semantics: signed overflow is undefined behaviour (model outcome `ub`)",
-        "move_arguments (register shuffle of the assembly prologue) is covered by C13/C01, not here",
+        "the register shuffle move_arguments is exercised through the real prologue: x86-64 natively for 0..5 parameters, AArch64 on the machine model for 0..7",
     ]
     chk.rule = (
         "values: all 10^k+-1, 2^k+-1 with both signs, i64 extremes, plus seeded random bit patterns of "
@@ -238,6 +238,60 @@ def main():
                                   "args_%d_%s.txt" % (n, "_".join(str(v & ((1 << 64) - 1)) for v in tup)),
                                   "params=%d\nargs=%s\nreceived=%s\nstatus=%d\nexpected_status=%d\nreplay: generate_c_driver(%d) + stub asm_main printing its arguments and returning the last one\n" % (n, tup, got_vals, p.returncode, exp_status, n))
             chk.sample({"driver_params": n, "args": tuples[0]})
+        h.close()
+        m.close()
+        shutil.rmtree(os.path.join(work, "target_scc"), ignore_errors=True)
+
+    # 5 arguments reach main's parameters unchanged and in order, through the REAL generated prologue
+    #   x86-64: 0..5 parameters, run natively (real driver, real io.c); AArch64: 0..7 parameters on the machine model
+    if ok_h and okm:
+        import native
+        import pipeline
+
+        h = common.harness(cwd=work)
+        m = common.model()
+        for n in range(0, 8):
+            params = ", ".join("p%d: i64" % i for i in range(1, n + 1))
+            body = " ".join("println_i64(p%d);" % i for i in range(1, n + 1))
+            src = "def main(%s): i64 { %s %s }\n" % (params, body, "p1" if n else "42")
+            sp = os.path.join(work, "args%d.sc" % n)
+            open(sp, "w").write(src)
+            st = pipeline.parse_stages(h.ask("stages %s 6" % sp) or [])
+            tuples = [[chk.rng.choice([0, 1, -1, 7, (1 << 31), -(1 << 31) - 1, (1 << 63) - 1, -(1 << 63), 10**18, -(10**18)]) for _ in range(n)] for _ in range(4 if chk.tier == "quick" else 40)] if n else [[]]
+            tuples.append(list(range(1, n + 1)))
+            if n <= 5 and "S7x" in st and st["S7x"][0] == "OK":
+                okA, msg, obj = native.assemble_x86(st["S7x"][1], work, "args%d" % n)
+                drv = native.real_driver(h, n, work)
+                okL, msgL, exe = native.link_x86(obj, drv, work, "argsexe%d" % n) if okA and drv else (False, msg, None)
+                chk.obligation("build:x86-args%d" % n, "build", okL, (msgL or "")[:200])
+                for tup in tuples if okL else []:
+                    out, status = native.run(exe, tup)
+                    chk.count(("x86-args", n, tuple(tup)))
+                    exp = b"".join(dec(v) + b"\n" for v in tup)
+                    exp_status = (tup[0] if n else 42) % 256
+                    if out != exp or status != exp_status:
+                        found_failing = True
+                        chk.impl_oracle_failures.append({"arch": "x86", "n": n, "args": tup, "stdout": out.decode(errors="replace")[:120], "status": status})
+                        chk.violation("args:x86:wrong-parameter", "x86-64 main with %d parameters run with %s prints %r, exit %s" % (n, tup, out[:80], status),
+                                      "args_x86_%d.txt" % n, "params=%d\nargs=%s\nstdout=%r\nstatus=%s\nexpected stdout=%r status=%d\nsource:\n%s" % (n, tup, out, status, exp, exp_status, src))
+                        break
+            if "S7a" in st and st["S7a"][0] == "OK":
+                ap = os.path.join(work, "args%d.a64.asm" % n)
+                open(ap, "w").write(st["S7a"][1])
+                for tup in tuples:
+                    a = ",".join(str(v) for v in tup) if tup else "-"
+                    line = (m.ask("asm a64 %s %s 100000 none" % (ap, a)) or ["DIED"])[0]
+                    chk.count(("a64-args", n, tuple(tup)))
+                    exp_out = ",".join("1:%d" % v for v in tup)
+                    exp_res = "done:%d" % (tup[0] if n else 42)
+                    if ("out=[%s]" % exp_out) not in line or ("res=%s " % exp_res) not in line + " ":
+                        found_failing = True
+                        chk.impl_oracle_failures.append({"arch": "a64", "n": n, "args": tup, "machine": line[:200]})
+                        chk.violation("args:a64:wrong-parameter", "AArch64 main with %d parameters run with %s on the machine model: %s" % (n, tup, line[:160]),
+                                      "args_a64_%d.txt" % n, "params=%d\nargs=%s\nmachine=%s\nexpected out=[%s] res=%s\nsource:\n%s" % (n, tup, line, exp_out, exp_res, src))
+                        break
+            elif n <= 7:
+                chk.obligation("codegen:a64-args%d" % n, "build", False, str(st.get("S7a"))[:200])
         h.close()
         m.close()
         shutil.rmtree(os.path.join(work, "target_scc"), ignore_errors=True)
